@@ -878,15 +878,51 @@ def raw_programs(addr):
         out.append((tag, 5, f'{store} ; NONE (ticket nat) ; PUSH nat 0 ; GET_AND_UPDATE ; {some} ; SWAP ; NONE (ticket nat) ; PUSH nat 0 ; GET_AND_UPDATE ; DIP {{ DROP }}'))
         out.append((tag, 8, f'{store} ; {mk(3)} ; SOME ; PUSH nat 1 ; UPDATE ; DUP 1'))
         out.append((tag, 5, f'{store} ; PUSH nat 0 ; MEM'))
+    # a live ticket's contents must not change when the value read out of it is modified (UPDATE n and friends)
+    none = 'IF_NONE { PUSH string "none" ; FAILWITH } {}'
+
+    def mkc(n, ty, v):
+        return f'PUSH nat {n} ; PUSH ({ty}) ({v}) ; TICKET ; {none}'
+
+    def ck(ty, v):
+        from pytezos.michelson.parse import michelson_to_micheline
+        return content_key(michelson_to_micheline(v))
+
+    P2, P3 = 'pair nat nat', 'pair nat (pair nat nat)'
+    for ty, v, edits in ((P2, 'Pair 1 2', [('PUSH nat 9 ; UPDATE 1', 'Pair 9 2'), ('PUSH nat 9 ; UPDATE 2', 'Pair 1 9'),
+                                           ('PUSH (pair nat nat) (Pair 9 2) ; UPDATE 0', 'Pair 9 2')]),
+                         (P3, 'Pair 1 (Pair 2 3)', [('PUSH nat 9 ; UPDATE 1', 'Pair 9 (Pair 2 3)'), ('PUSH nat 9 ; UPDATE 3', 'Pair 1 (Pair 9 3)'),
+                                                    ('PUSH nat 9 ; UPDATE 4', 'Pair 1 (Pair 2 9)'),
+                                                    ('PUSH (pair nat nat) (Pair 7 8) ; UPDATE 2', 'Pair 1 (Pair 7 8)')])):
+        for edit, v2 in edits:
+            both = {ck(ty, v): 5, ck(ty, v2): 3}
+            read = f'{mkc(5, ty, v)} ; READ_TICKET ; GET 3 ; {edit}'
+            out.append(('contents', {ck(ty, v): 5}, f'{read} ; DROP ; READ_TICKET ; DROP'))
+            out.append(('contents', both, f'{read} ; DROP ; {mkc(3, ty, v2)} ; PAIR ; JOIN_TICKETS'))
+            out.append(('contents', both, f'{read} ; DROP ; {mkc(3, ty, v2)} ; SWAP ; PAIR ; JOIN_TICKETS'))
+            out.append(('contents', {ck(ty, v): 8}, f'{read} ; DROP ; {mkc(3, ty, v)} ; PAIR ; JOIN_TICKETS'))
+            out.append(('contents', both, f'{read} ; PUSH nat 3 ; SWAP ; TICKET ; {none} ; PAIR ; JOIN_TICKETS'))
+            # edit the comb READ_TICKET returns (ticketer / contents / amount positions) instead of the contents alone
+            out.append(('contents', {ck(ty, v): 5}, f'{mkc(5, ty, v)} ; READ_TICKET ; PUSH ({ty}) ({v2}) ; UPDATE 3 ; PUSH nat 99 ; UPDATE 4 ; DROP ; READ_TICKET ; DROP'))
+        out.append(('contents', {ck(ty, v): 5}, f'{mkc(5, ty, v)} ; READ_TICKET ; GET 3 ; UNPAIR ; DROP ; DROP ; PUSH nat 2 ; PUSH nat 3 ; PAIR ; SWAP ; SPLIT_TICKET'))
+    out.append(('contents', {ck('option nat', 'Some 1'): 5, ck('option nat', 'Some 9'): 3},
+                f'{mkc(5, "option nat", "Some 1")} ; READ_TICKET ; GET 3 ; MAP {{ DROP ; PUSH nat 9 }} ; DROP ; {mkc(3, "option nat", "Some 9")} ; PAIR ; JOIN_TICKETS'))
     return out
 
 
-def live_ticket_total(item):
-    """total amount of the tickets inside a real stack item (pairs, options, lists, maps, big_maps)"""
+def content_key(micheline):
+    return json.dumps(lib.canon_micheline(micheline), sort_keys=True)
+
+
+K42 = content_key({'int': '42'})
+
+
+def live_tickets(item):
+    """(content key, amount) of every ticket inside a real stack item (pairs, options, lists, maps, big_map diffs)"""
     from pytezos.michelson import types as T
     if isinstance(item, T.TicketType):
-        return int(item.amount), int(item.amount) <= 0
-    total, bad = 0, False
+        yield content_key(item.item.to_micheline_value(mode='optimized')), int(item.amount)
+        return
     subs = []
     if isinstance(item, T.PairType):
         subs = list(item.items)
@@ -897,25 +933,99 @@ def live_ticket_total(item):
     elif isinstance(item, (T.MapType, T.BigMapType)):
         subs = [v for _, v in item.items if v is not None]
     for x in subs:
-        t, b = live_ticket_total(x)
-        total += t
-        bad = bad or b
-    return total, bad
+        yield from live_tickets(x)
 
 
-def run_raw(addr, text):
-    """-> None when the program is rejected, else (total live ticket amount, zero ticket seen)"""
+def mass_verdict(items, minted):
+    """minted: int (contents nat 42) or {content key: amount}.  -> reason or None"""
+    if isinstance(minted, int):
+        minted = {K42: minted}
+    live = {}
+    for x in items:
+        for k, a in live_tickets(x):
+            if a <= 0:
+                return f'a ticket with amount {a} is alive'
+            live[k] = live.get(k, 0) + a
+    for k, a in live.items():
+        if a > minted.get(k, 0):
+            return f'tickets with contents {k} of total amount {a} are alive although only {minted.get(k, 0)} were created / stored'
+    return None
+
+
+def run_raw(addr, text, minted):
+    """-> 'rejected' | None (property holds) | reason"""
     interp = interpreter()
     interp.context.address = addr
     ok, res = lib.call(interp.execute, text)
     if not ok or res.error is not None:
-        return None
-    total, bad = 0, False
-    for x in interp.stack.items:
-        t, b = live_ticket_total(x)
-        total += t
-        bad = bad or b
-    return total, bad
+        return 'rejected'
+    return mass_verdict(list(interp.stack.items), minted)
+
+
+# ---- big_maps of tickets that live on chain (served by a stub context, no node)
+
+CHAIN_TYPES = 'parameter unit ; storage (pair (big_map nat (ticket nat)) (option (ticket nat))) ;'
+
+
+def chain_programs():
+    """(stored {key: amount}, body).  The body starts with the big_map on the stack and must leave  option (ticket nat) : big_map"""
+    take = lambda k: f'NONE (ticket nat) ; PUSH nat {k} ; GET_AND_UPDATE'  # noqa: E731
+    comb = 'DIG 2 ; IF_NONE {} { SWAP ; IF_NONE { SOME } { PAIR ; JOIN_TICKETS } }'
+    out = []
+    for stored, keys in (({0: 5}, [0, 0]), ({0: 5}, [0, 0, 0]), ({0: 5, 1: 3}, [0, 1]), ({0: 5, 1: 3}, [0, 1, 0, 1]), ({0: 5, 1: 3}, [1, 1, 0]),
+                         ({0: 5}, [2]), ({0: 5}, [2, 0, 2, 0])):
+        body = take(keys[0])
+        for k in keys[1:]:
+            body += f' ; SWAP ; {take(k)} ; {comb}'
+        out.append((stored, body))
+    # take out, put back, take out again, and once more
+    out.append(({0: 5}, f'{take(0)} ; PUSH nat 0 ; GET_AND_UPDATE ; DROP ; {take(0)} ; SWAP ; {take(0)} ; {comb}'))
+    # remove with UPDATE, then try to take
+    out.append(({0: 5}, f'NONE (ticket nat) ; PUSH nat 0 ; UPDATE ; {take(0)}'))
+    out.append(({0: 5}, f'{take(0)} ; SWAP ; NONE (ticket nat) ; PUSH nat 0 ; UPDATE ; {take(0)} ; {comb}'))
+    # GET / DUP on it must be refused (non-duplicable values)
+    out.append(({0: 5}, f'DUP ; PUSH nat 0 ; GET ; SWAP ; DROP ; SWAP'))
+    out.append(({0: 5}, f'PUSH nat 0 ; GET ; NONE (ticket nat) ; PAIR ; DROP ; NONE (ticket nat) ; EMPTY_BIG_MAP nat (ticket nat) ; SWAP'))
+    return out
+
+
+def run_chain(stored, body):
+    """run a contract whose storage big_map (id 0) lives in the context -> 'rejected' | None | reason"""
+    from pytezos.context.impl import ExecutionContext
+    from pytezos.michelson.forge import forge_script_expr
+    from pytezos.michelson.parse import michelson_to_micheline
+    from pytezos.michelson.program import MichelsonProgram
+    from pytezos.michelson.stack import MichelsonStack
+    from pytezos.michelson.types import NatType
+
+    class ChainCtx(ExecutionContext):
+        chain_big_maps: dict = {}
+
+        def get_big_map_value(self, ptr, key_hash):
+            if ptr not in self.big_maps:
+                return None
+            src, _ = self.big_maps[ptr]
+            return self.chain_big_maps.get((src, key_hash))
+
+    def go():
+        code = f'{CHAIN_TYPES} code {{ CDR ; CAR ; {body} ; SWAP ; PAIR ; NIL operation ; PAIR }}'
+        script = michelson_to_micheline(code)
+        storage = {'prim': 'Pair', 'args': [{'int': '0'}, {'prim': 'None'}]}
+        ctx = ChainCtx(script={'code': script, 'storage': storage})
+        me = ctx.get_self_address()
+        ctx.chain_big_maps = {(0, forge_script_expr(NatType(k).pack(legacy=True))): {'prim': 'Pair', 'args': [{'string': me}, {'int': '42'}, {'int': str(a)}]}
+                              for k, a in stored.items()}
+        stack, stdout = MichelsonStack(), []
+        program = MichelsonProgram.load(ctx, with_code=True)
+        res = program.instantiate(entrypoint='default', parameter={'prim': 'Unit'}, storage=storage)
+        res.begin(stack, stdout, ctx)
+        res.execute(stack, stdout, ctx)
+        return list(stack.items)
+
+    ok, items = lib.call(go)
+    if not ok:
+        return 'rejected'
+    return mass_verdict(items, sum(stored.values()))
 
 
 def has(prog, names):
@@ -1002,31 +1112,31 @@ def run(ctx: lib.Ctx) -> None:
     # oracle-only stream (outside the Coq model)
     raw_seen = {'rejected': 0, 'ran': 0}
     for tag, minted, text in raw_programs(addrs[0]):
-        got = run_raw(addrs[0], text)
-        ctx.case(('raw', text), nontrivial=True, kind=f'raw:{tag}:{"rejected" if got is None else "ran"}')
-        raw_seen['rejected' if got is None else 'ran'] += 1
-        if got is None:
-            continue
-        total, zero = got
-        if total > minted or zero:
-            what = (f'tickets of total amount {total} are alive although TICKET created only {minted}' if total > minted
-                    else 'a ticket with amount 0 is alive')
-            rep = {'self': addrs[0], 'text': text, 'observed_total': total, 'minted': minted,
-                   'repro': f"from pytezos.michelson.repl import Interpreter; i=Interpreter(); i.context.address={addrs[0]!r}; print(i.execute({text!r}).error, i.stack.items)"}
-            f = ctx.finding('big-map-ticket-copy') if tag == 'big_map' else None
-            if f is not None:
-                ctx.known_hit(f)
-            elif reported < 3:
-                reported += 1
-                ctx.violation(f'ticket property violated: {what}', rep)
+        why = run_raw(addrs[0], text, minted)
+        ctx.case(('raw', text), nontrivial=True, kind=f'raw:{tag}:{"rejected" if why == "rejected" else "ran"}')
+        raw_seen['rejected' if why == 'rejected' else 'ran'] += 1
+        if why and why != 'rejected' and reported < 3:
+            reported += 1
+            ctx.violation(f'ticket property violated: {why}',
+                          {'self': addrs[0], 'text': text, 'minted': minted,
+                           'repro': f"from pytezos.michelson.repl import Interpreter; i=Interpreter(); i.context.address={addrs[0]!r}; print(i.execute({text!r}).error, i.stack.items)"})
+    for stored, body in chain_programs():
+        why = run_chain(stored, body)
+        ctx.case(('chain', repr(stored), body), nontrivial=True, kind=f'raw:chain_big_map:{"rejected" if why == "rejected" else "ran"}')
+        raw_seen['rejected' if why == 'rejected' else 'ran'] += 1
+        if why and why != 'rejected' and reported < 3:
+            reported += 1
+            ctx.violation(f'ticket property violated (big_map of tickets stored on chain, no TICKET executed): {why}',
+                          {'stored': {str(k): v for k, v in stored.items()}, 'body': body, 'storage_type': CHAIN_TYPES,
+                           'repro': 'harness/c20.py run_chain(stored, body): contract whose storage big_map id 0 is served by a stub context'})
     # fixed defects must stay fixed
     for f in ctx.known['fixed']:
         w = f.get('witness', {})
         if 'text' in w and 'minted' in w and isinstance(w['text'], str):
-            got = run_raw(w['self'], w['text'])
-            if got is not None and (got[0] > w['minted'] or got[1]) and reported < 3:
+            why = run_raw(w['self'], w['text'], w['minted'])
+            if why and why != 'rejected' and reported < 3:
                 reported += 1
-                ctx.violation(f'fixed defect is back: {f["what"]}', {'self': w['self'], 'text': w['text'], 'observed_total': got[0], 'minted': w['minted']})
+                ctx.violation(f'fixed defect is back: {f["what"]} ({why})', {'self': w['self'], 'text': w['text'], 'minted': w['minted']})
     ctx.extra['oracle_only_stream'] = raw_seen
     t_coq = time.time()
     allbad = ctx.coq_mismatches('tickets', IMPORTS, 'fun c => exec_from (fst c) (snd c)', 'obs_eqb', 'bytes * list instr',
@@ -1053,9 +1163,13 @@ def run(ctx: lib.Ctx) -> None:
 def replay(ctx: lib.Ctx, doc: dict) -> bool:
     """./check C20 --replay file : re-run the recorded program; True (exit 1) if the property still fails on it."""
     if 'program' not in doc and 'text' in doc and 'minted' in doc:
-        got = run_raw(doc['self'], doc['text'])
-        print('observed now:', 'rejected' if got is None else f'live ticket total {got[0]} (minted {doc["minted"]})')
-        return got is not None and (got[0] > doc['minted'] or got[1])
+        why = run_raw(doc['self'], doc['text'], doc['minted'])
+        print('verdict now:', why or 'property holds on this input')
+        return bool(why) and why != 'rejected'
+    if 'body' in doc and 'stored' in doc:
+        why = run_chain({int(k): v for k, v in doc['stored'].items()}, doc['body'])
+        print('verdict now:', why or 'property holds on this input')
+        return bool(why) and why != 'rejected'
     if 'program' not in doc or 'self' not in doc:
         return False
     prog = from_json(doc['program'])
